@@ -18,7 +18,13 @@ from common import frac_str
 
 VERSIONS = [2, 3, 6, 7, 8]
 LEVELS = [(1, 2), (1, 3), (2, 3), (2, 4)]
-MARGINS = [0.0, 0.5, 0.9, 1.0]
+MARGINS = [0.0, 0.0, 0.5, 0.9, 1.0, None]      # None = constructor default (documented: 0.9)
+
+
+def eff_margin(cfg):
+    """the margin the property speaks of = the value PASSED to the constructor (None means the documented default 0.9);
+    it is never read back from the object under test"""
+    return 0.9 if cfg["margin"] is None else float(cfg["margin"])
 SAFETY = [0.0, 0.125, 0.25, 0.1]
 
 _classes = {}
@@ -115,7 +121,7 @@ class Impl:
         self.f = c["TableF"](cfg["fseed"])
         op = Integration(self.f, grid=grid, dim=self.dim, reference_solution=np.array([1.0]))
         self.ec = c["Scripted"]()
-        self.sa = c["Instr"](self.a, self.b, version=cfg["version"], operation=op, margin=float(cfg["margin"]),
+        self.sa = c["Instr"](self.a, self.b, version=cfg["version"], operation=op, margin=(None if cfg["margin"] is None else float(cfg["margin"])),
                              rebalancing=bool(cfg["rebalancing"]), rebalancing_safety_factor=float(cfg["sf"]),
                              log_level=log_levels.WARNING, print_level=print_levels.NONE)
         if init_bens is not None:
@@ -271,7 +277,7 @@ def rat_margin(p, q, n, sf):
 
 # ----------------------------------------------------------------------------------------------- generators
 
-def gen_config(ctx, thorough, want_c03):
+def gen_config(ctx, thorough, want_c03, family=None):
     r = ctx.rng
     dim = r.choice([2, 2, 2, 3] if not thorough else [2, 2, 3, 3, 4])
     lmin, lmax = r.choice(LEVELS)
@@ -292,14 +298,23 @@ def gen_config(ctx, thorough, want_c03):
     # getters / derived values (component grids, __call__) are observed at randomly chosen steps and always at the end,
     # pure attribute reads after every step
     cfg["observe"] = [r.random() < 0.45 for _ in range(steps)]
+    if family == "deepen":
+        # small directed histories: rotations and raises of lmax by more than one level in the same step
+        cfg.update(dim=2, lmin=1, lmax=r.choice([2, 2, 3]), a=["0", str(cfg["a"][1])], b=["1", str(cfg["b"][1])],
+                   rebalancing=True, sf=r.choice([0.0, 0.0, 0.1]), margin=1.0, steps=r.randint(2, 4),
+                   family="deepen", deepen_dim=r.randrange(2), deepen_side=r.randrange(2))
+        cfg["a"] = cfg["a"][:2]; cfg["b"] = cfg["b"][:2]
+        cfg["observe"] = [r.random() < 0.3 for _ in range(cfg["steps"])]
     return cfg
 
 
-def gen_benefits(ctx, cfg, sizes, step_no, cap):
+def gen_benefits(ctx, cfg, sizes, step_no, cap, levels=None):
     """scripted dyadic benefits: single picks, ties at the maximum, values exactly at / just below the threshold,
     zeros; bounded so that the number of objects stays below `cap` per dimension"""
     r = ctx.rng
-    margin = Fraction(float(cfg["margin"]))
+    margin = Fraction(eff_margin(cfg))
+    if cfg.get("family") == "deepen" and levels is not None:
+        return gen_deepen(ctx, cfg, sizes, levels, cap)
     kind = r.choice(["single", "single", "few", "few", "ties", "threshold", "zeros", "dim-only", "many"])
     total = sum(sizes)
     room = min(cap - s for s in sizes)
@@ -323,7 +338,11 @@ def gen_benefits(ctx, cfg, sizes, step_no, cap):
         return bens, kind
     fill_low()
     if margin == 0:
-        # everything with benefit >= 0 is split whatever we script
+        # every interval has benefit >= 0 * max and must be split whatever the (varied, non-zero) benefits are
+        for d in range(len(sizes)):
+            for i in range(sizes[d]):
+                bens[d][i] = r.choice(low_choices + [top / 2, top])
+        bens[r.randrange(len(sizes))][0] = top
         return bens, "margin0"
     picks = []
     if kind == "single":
@@ -351,13 +370,80 @@ def gen_benefits(ctx, cfg, sizes, step_no, cap):
         # one value exactly at margin * max (selected, `>=`) when that is dyadic-exact, one just below
         thr = margin * top
         d2 = r.randrange(len(sizes)); i2 = r.randrange(sizes[d2])
-        if (d2, i2) not in picks and float(thr) * 1.0 == thr and Fraction(float(top) * float(cfg["margin"])) == thr:
+        if (d2, i2) not in picks and float(thr) * 1.0 == thr and Fraction(float(top) * eff_margin(cfg)) == thr:
             bens[d2][i2] = thr
         d3 = r.randrange(len(sizes)); i3 = r.randrange(sizes[d3])
         if (d3, i3) not in picks and (d3, i3) != (d2, i2) and thr > 0:
             bens[d3][i3] = thr - top / 64
     # per-dimension count of selected stays within room
     return bens, kind
+
+
+def init_levels(cfg):
+    """(levels[0], levels[1]) of the 2^lmax initial intervals of every dimension (complete tree)"""
+    def lv(i, k):
+        if i == 0 or i == 2 ** k:
+            return 0
+        t = 0
+        while i % 2 == 0:
+            i //= 2; t += 1
+        return k - t
+    k = cfg["lmax"]
+    row = [(lv(i, k), lv(i + 1, k)) for i in range(2 ** k)]
+    return [list(row) for _ in range(cfg["dim"])]
+
+
+def gen_deepen(ctx, cfg, sizes, levels, cap):
+    """directed family (rebalancing on, margin 1): in one dimension the deepest interval(s) are refined together with
+    neighbours / a few other intervals, so that a rotation and a raise of lmax (possibly by more than one level)
+    meet in the same step; all other benefits are 0.  `levels[d][i]` = (levels[0], levels[1]) of object i."""
+    r = ctx.rng
+    d0 = cfg.get("deepen_dim", 0)
+    n = sizes[d0]
+    if n + 8 > cap:
+        return None, "stop"
+    bens = [[Fraction(0)] * m for m in sizes]
+    lv = levels[d0]
+    depth = max(max(l) for l in lv)
+    root = next((i for i in range(n) if lv[i][1] == 1), n // 2)          # object ending at the level-1 point
+    picks = set()
+    mode = r.random()
+    if mode < 0.75:
+        # lopsided: most intervals of one side of the root, and one or two of the deepest intervals of the other side
+        heavy_right = cfg.get("deepen_side", 0) == 1 if r.random() < 0.8 else r.random() < 0.5
+        heavy = list(range(root + 1, n)) if heavy_right else list(range(0, root + 1))
+        light = list(range(0, root + 1)) if heavy_right else list(range(root + 1, n))
+        p_heavy = r.choice([0.5, 0.75, 1.0])
+        for i in heavy:
+            if r.random() < p_heavy:
+                picks.add(i)
+        if light:
+            dl = max(max(lv[i]) for i in light)
+            deep_light = [i for i in light if max(lv[i]) == dl]
+            picks.update(r.sample(deep_light, min(len(deep_light), r.choice([1, 1, 2]))))
+            if r.random() < 0.3:
+                picks.add(r.choice(light))
+    else:
+        deep = [i for i in range(n) if max(lv[i]) == depth]
+        picks.update(r.sample(deep, r.randint(1, min(len(deep), 3))))
+        for i in list(picks):
+            for j in (i - 1, i + 1):
+                if 0 <= j < n and r.random() < 0.45:
+                    picks.add(j)
+        for i in range(n):
+            if r.random() < 0.25:
+                picks.add(i)
+    if not picks:
+        picks.add(r.randrange(n))
+    picks = sorted(picks)
+    if len(picks) > 8:
+        picks = sorted(r.sample(picks, 8))
+    for i in picks:
+        bens[d0][i] = Fraction(1)
+    if r.random() < 0.15 and len(sizes) > 1:
+        d1 = (d0 + 1) % len(sizes)
+        bens[d1][r.randrange(sizes[d1])] = Fraction(1)
+    return bens, "deepen"
 
 
 def selection_spec(bens, margin_float):
@@ -435,11 +521,11 @@ class History:
                 self.viol("state-clauses", {"dimension": d, "failed": bad, "objs": impl.objs_str(d), "lmax": impl.lmax_str()},
                           {"failed": bad[0]})
 
-    def next_benefits(self, sizes, k, cap):
+    def next_benefits(self, sizes, k, cap, levels=None):
         """benefit table of step k (generated or replayed); None = stop the history here"""
         ctx, cfg = self.ctx, self.cfg
         if self.script is None:
-            bens, kind = gen_benefits(ctx, cfg, sizes, k, cap)
+            bens, kind = gen_benefits(ctx, cfg, sizes, k, cap, levels)
             if bens is None:
                 ctx.count("history_stopped_size")
                 return None
@@ -450,7 +536,7 @@ class History:
             if [len(r_) for r_ in bens] != sizes:
                 ctx.count("replay_script_shape_mismatch")
                 return None
-        sel, amb = selection_spec(bens, cfg["margin"])
+        sel, amb = selection_spec(bens, eff_margin(cfg))
         if amb:
             ctx.count("ambiguous_float_margin")
             return None
@@ -470,7 +556,7 @@ class History:
         cap = 40 if not thorough else 72
         nsteps = cfg["steps"] if self.script is None else len(self.script)
         observe = list(cfg.get("observe", [])) + [True] * nsteps
-        bens = self.next_benefits([2 ** cfg["lmax"]] * cfg["dim"], 0, cap) if nsteps > 0 else None
+        bens = self.next_benefits([2 ** cfg["lmax"]] * cfg["dim"], 0, cap, init_levels(cfg)) if nsteps > 0 else None
         try:
             impl = Impl(cfg, bens)
         except Exception as e:  # the property promises a working structure for every such configuration
@@ -489,7 +575,7 @@ class History:
             if [[fr(x) for x in row] for row in seen] != bens:
                 self.corr("benefit-injection", str(seen)[:300], str(bens)[:300])
                 break
-            sel, _ = selection_spec(bens, cfg["margin"])
+            sel, _ = selection_spec(bens, eff_margin(cfg))
             if self.check_points and observe[k]:
                 self.points_checks(impl, "@before-refine-%d" % k)
                 if self.violated:
@@ -514,7 +600,8 @@ class History:
                 break
             k += 1
             sizes = [len(impl.containers()[d].get_objects()) for d in range(impl.dim)]
-            bens = self.next_benefits(sizes, k, cap) if k < nsteps else None
+            levels = [[(int(o.levels[0]), int(o.levels[1])) for o in impl.containers()[d].get_objects()] for d in range(impl.dim)]
+            bens = self.next_benefits(sizes, k, cap, levels) if k < nsteps else None
             final = bens is None
             if final and not self.check_points:
                 break
@@ -539,7 +626,7 @@ class History:
         line_args = None
         for _ in range(20):
             ov = ";".join("%d:%d:%d:%d" % (p, q, n, 1 if v else 0) for (p, q, n), v in sorted(overrides.items())) or "-"
-            line_args = "%s %d %s %s %s" % (frac_str(Fraction(float(cfg["margin"]))), 1 if cfg["rebalancing"] else 0,
+            line_args = "%s %d %s %s %s" % (frac_str(Fraction(eff_margin(cfg))), 1 if cfg["rebalancing"] else 0,
                                             frac_str(Fraction(sf)), ov, bens_str(bens))
             out = drv.ask("try " + line_args)
             if not out.startswith("ok "):
